@@ -26,6 +26,7 @@ pub fn decode_stream(data: &[u8]) -> Stream {
         upd: [-1i64, 0, 3, 1000][((o1 >> 6) & 3) as usize],
         m: if o0 & 0x80 != 0 { Some(vec![17, 4]) } else { None },
         dl: false,
+        fmt: None,
     };
     let mut lines = Vec::new();
     let mut hostile = 0u32;
